@@ -443,6 +443,27 @@ impl<F: PathFetcher> MultiPathManager<F> {
         }
     }
 
+    /// Removes the entry of the given src-dst pair, but only if it still belongs to the path set
+    /// with the given shared state.
+    ///
+    /// Used by an exiting path set task: by the time it exits (e.g. a while after
+    /// [`Self::stop_managing_paths`], once its last fetch has returned) the pair may already be
+    /// managed by a successor, which must not be removed.
+    pub(crate) fn stop_managing_path_set(
+        &self,
+        src: IsdAsn,
+        dst: IsdAsn,
+        shared: &Arc<pathset::PathSetSharedState>,
+    ) {
+        if self
+            .0
+            .managed_paths
+            .remove_if_sync(&(src, dst), |(handle, _)| Arc::ptr_eq(&handle.shared, shared))
+        {
+            tracing::info!(%src, %dst, "Stopped managing paths for src-dst pair");
+        }
+    }
+
     /// Reports a path issue to the issue manager.
     pub(crate) fn report_path_issue(&self, timestamp: SystemTime, issue: IssueKind) {
         let Some(applies_to) = issue.target_type() else {
